@@ -234,6 +234,30 @@ def crc_consts(src):
     return num(m.group(1)), int(m.group(2)), num(m.group(3)), int(m.group(4))
 
 
+def fc_of_variant(src, impl_re):
+    """Request::function_code / Response::function_code: variant name -> FunctionCode name ("Custom" -> "Custom")"""
+    impl = block_after(src, impl_re)
+    fn = block_after(impl, r"pub\s+const\s+fn\s+function_code\s*\(\s*&self\s*\)\s*->\s*FunctionCode\s*\{")
+    m = block_after(fn, r"match\s+self\s*\{")
+    rows = []
+    for p, e in split_arms(m):
+        mp = re.fullmatch(r"(Self::)?([A-Z][A-Za-z]+)(\((.*)\))?", p)
+        if not mp:
+            raise Skip("function_code: unrecognised pattern %s" % p)
+        if mp.group(2) == "Custom":
+            mc = re.fullmatch(r"FunctionCode::Custom\(\*(\w+)\)", e)
+            args = [a.strip() for a in (mp.group(4) or "").split(",")]
+            if not mc or not args or args[0] != mc.group(1):
+                raise Skip("function_code: Custom arm does not pass its own code on")
+            rows.append(("Custom", "Custom"))
+            continue
+        me = re.fullmatch(r"FunctionCode::([A-Z][A-Za-z]+)", e)
+        if not me:
+            raise Skip("function_code: unrecognised body %s" % e)
+        rows.append((mp.group(2), me.group(1)))
+    return rows
+
+
 def slave_consts(src):
     """(broadcast, min_device, max_device, tcp_device) and the shape of the three classification predicates"""
     vals = []
@@ -322,6 +346,9 @@ def main():
           lambda: name_table_new(frame, r"impl\s+ExceptionCode\s*\{", r"pub\s+const\s+fn\s+new\s*\(\s*value\s*:\s*u8\s*\)\s*->\s*Self\s*\{", r""), emit_names)
     piece("gen_ex_value_table", "name_table", "ex_table_model",
           lambda: name_table_value(block_after(frame, r"impl\s+From<ExceptionCode>\s+for\s+u8\s*\{"), r"fn\s+from\s*\(\s*from\s*:\s*ExceptionCode\s*\)\s*->\s*Self\s*\{", "from", r""), emit_names)
+    emit_pairs = lambda rows: "[" + "; ".join("(%s, %s)" % (s2l(a), s2l(b)) for a, b in rows) + "]"
+    piece("gen_req_fc_table", "list (list N * list N)", "req_fc_table_model", lambda: fc_of_variant(frame, r"impl\s+Request<'_>\s*\{"), emit_pairs)
+    piece("gen_rsp_fc_table", "list (list N * list N)", "rsp_fc_table_model", lambda: fc_of_variant(frame, r"impl\s+Response\s*\{"), emit_pairs)
     piece("gen_req_len_table", "len_table", "req_len_table_model", lambda: len_table(rtu, "get_request_pdu_len"), emit_len)
     piece("gen_rsp_len_table", "len_table", "rsp_len_table_model", lambda: len_table(rtu, "get_response_pdu_len"), emit_len)
     piece("gen_req_size_table", "size_table", "req_size_table_model", lambda: size_table(codec, "request_pdu_size", "request"), emit_size)
